@@ -211,7 +211,11 @@ def run_check(modname, tier, seed, workers=None):
               % (pid, key, e.get('what', ''), seen_known.get(key, 0)))
 
     # ---- replay files ---------------------------------------------------
-    rdir = os.path.join(VERIF, 'replay', pid)
+    # runs against a scratch copy of the repository (mutation testing) never
+    # touch the evidence / replay files of the real tree
+    mutated = os.path.realpath(REPO) != '/repo'
+    outbase = os.path.join(VERIF, 'scratch', 'mutation-runs') if mutated else VERIF
+    rdir = os.path.join(outbase, 'replay', pid)
     printed = 0
     by_key = Counter()
     for v in fresh:
@@ -261,8 +265,8 @@ def run_check(modname, tier, seed, workers=None):
         'wall_s': round(wall, 3),
         'violations': int(len(fresh)),
     }
-    os.makedirs(os.path.join(VERIF, 'evidence'), exist_ok=True)
-    with open(os.path.join(VERIF, 'evidence', pid + '.json'), 'w') as f:
+    os.makedirs(os.path.join(outbase, 'evidence'), exist_ok=True)
+    with open(os.path.join(outbase, 'evidence', pid + '.json'), 'w') as f:
         json.dump(evidence, f, indent=1, sort_keys=True)
         f.write('\n')
 
